@@ -203,7 +203,7 @@ def check_property(prop, tier, seed, jobs=None, quiet=False):
                         "instances": sum(r.get("count", 1) for r in instances if r["name"] == n),
                         "example_case": ex.get("sample")})
     ev = {
-        "property_id": prop, "tier": tier, "seed": seed, "level": "proof",
+        "property_id": prop, "tier": tier, "seed": seed, "level": "proof" if proof_inst else "other",
         "coverage": {
             "obligations": cnt(proof_inst), "discharged": cnt(proof_dis),
             "bounded_obligations": cnt(bnd_inst), "bounded_discharged": cnt(bnd_dis),
@@ -222,6 +222,13 @@ def check_property(prop, tier, seed, jobs=None, quiet=False):
             "known_findings_witnessed": known_ids,
             "undecided": undecided[:20], "unknown_obligations": sorted({r["name"] for r in unknown}),
             "samples": samples,
+            "explanation": (
+                "Contract-based deductive verification of the real functions: `obligations`/`discharged` count the "
+                "verification conditions generated from /repo's source for ALL inputs of the stated sorts (unbounded lists, "
+                "symbolic facts, complete case splits) and discharged by z3; `bounded_obligations` are bounded stand-ins "
+                "(finite shape bound stated in `bounded` and in the unit assumptions, every leaf value still symbolic, or "
+                "native differential runs against a spec function) and are NOT counted as proved."
+                + ("" if proof_inst else " This property currently has bounded stand-ins only: nothing is claimed as proved.")),
         },
         "assumptions": assumptions,
         "wall_s": round(time.time() - t0, 2),
